@@ -66,8 +66,9 @@ Proof. reflexivity. Qed.
 
 (* Single insertion, lookup and erasure by key of the model are the code's: [insert_val] (Hint.v), [fs_find] and [fs_erase_key]
    (SetModel.v) are proved equal (HintTV.v) to Gen/HintGen.v, regenerated on every run by translator/hint2coq.py from clang's AST
-   of FlatSet<int>::insert_val, find(const_reference) and erase(const_reference) (iterators as offsets; std::lower_bound and
-   the vector's insert / erase as primitives specified in HintPrims.v). *)
+   of FlatSet<int>::insert_val, find(const_reference), erase(const_reference), insert(first, last) and eraseDuplicates (iterators
+   as offsets; std::lower_bound, std::stable_sort, std::inplace_merge, std::unique and the vector's insert / erase as primitives
+   specified in HintPrims.v - a change of algorithm, e.g. std::sort for std::stable_sort, has no primitive and breaks the obligation). *)
 From Amc Require HintPrims HintTV.
 From Amc.Gen Require HintGen.
 Theorem C03_insert_is_the_regenerated_one :
@@ -81,3 +82,6 @@ Proof. exact HintTV.find_tv. Qed.
 Theorem C03_erase_key_is_the_regenerated_one :
   forall cmp l v, HintGen.erase_key_gen cmp l v = (fst (SetModel.fs_erase_key cmp l v), Z.of_nat (snd (SetModel.fs_erase_key cmp l v))).
 Proof. exact HintTV.erase_key_tv. Qed.
+Theorem C03_bulk_insert_is_the_regenerated_one :
+  forall cmp l vs, HintGen.insert_range_gen cmp l vs = SetModel.fs_bulk cmp l vs.
+Proof. exact HintTV.insert_range_tv. Qed.
